@@ -76,6 +76,14 @@ def cases(rng, tier):
     for i in range(3 if tier == "quick" else 12):
         s = rng.choice(["EKEKEKRDQGSA", "EKEKGGEKRDGG", "KEKEGGDRKEAG"])
         yield Case(["wlrun %s 4 0 1 %d 4/5 301/1000 %d 600 -" % (s, rng.choice([1, 2]), rng.randint(0, 10 ** 6))], {"kind": "flat-check-every-step"})
+    # two bins, criterion 4/5, a check every 5 / 7 steps: histograms such as 14/21, 28/42 sit EXACTLY on the criterion (binary mean)
+    for i in range(6 if tier == "quick" else 30):
+        s = rng.choice(["EKEKEKRDQGSA", "EKEKGGEKRDGG", "KEKEGGDRKEAG", "EKEKAGSGDRDR"])
+        yield Case(["wlrun %s 2 0 1 %d 4/5 251/1000 %d 900 -" % (s, rng.choice([5, 7, 35]), rng.randint(0, 10 ** 6))], {"kind": "exact-flatness-ties"})
+    # ... many very short ones (the first checks at 35 / 70 steps are where 14/21, 28/42 happen)
+    for i in range(60 if tier == "quick" else 400):
+        s = rng.choice(["EKEKEKRDQGSA", "EKEKGGEKRDGG", "KEKEGGDRKEAG", "EKEKAGSGDRDR"])
+        yield Case(["wlrun %s 2 0 1 %d 4/5 251/1000 %d 75 -" % (s, rng.choice([35, 35, 5, 7]), rng.randint(0, 10 ** 6))], {"kind": "exact-flatness-ties-short"})
     # the SECOND run() on one machine obeys the same rules from the same initial state
     for i in range(3 if tier == "quick" else 12):
         s = rng.choice(["EKEKEKRDQGSA", "EKEKGGEKRDGG", "KEKEGGDRKE"])
@@ -217,6 +225,13 @@ def judge(case, reals, gens, specs):
             nstep = 0
         # model replay
         lines.append("wlstep %d %d" % (st["idx_new"], fbits(ra if ra is not None else 2.0)))
+    # every proposal the run asked a move for is one judged step (none dropped before the bookkeeping)
+    if not d.get("scripted") and "proposals" in d:
+        props_ = d["proposals"]
+        got = [st["nseq"] for st in trace]
+        if props_[:len(got)] != got or len(props_) > len(got) + 1:
+            k_ = next((i for i, (a_, b_) in enumerate(zip(props_, got)) if a_ != b_), min(len(props_), len(got)))
+            bad("proposal %d (%s) has no step in the run's bookkeeping: %d proposals made, %d steps recorded" % (k_, props_[k_] if k_ < len(props_) else "?", len(props_), len(got)))
     # stop rule
     capped = len(trace) >= int(tk[9])
     still = math.exp(2.0 ** (-lnf_exp)) > cfg["convergence"]
